@@ -197,6 +197,37 @@ def run(ctx):
                                loc=loc(mem, o.node), path=p.describe() if not sync else None)
     if n_stat == 0:
         ctx.info('T9.sync: no descriptor-level size query in the spooled classes (nothing to check)')
+    # T2.seek: the two position components of SpooledStringIO move together: a path of seek() that repositions the byte buffer
+    # (through _traverse_codepoints) also stores the code-point position, the traversal starts from a known byte position
+    # (buffer.seek(0) for absolute targets, the current position for relative ones), and no path stores _tell without moving
+    ssi = prog.cls('ioutils.SpooledStringIO')
+    sk = prog.resolve(ssi, 'seek')
+    wsk, skpaths = paths_of(prog, sk, recv=ssi)
+    n_sk = 0
+    for p in skpaths:
+        if p.kind != 'return':
+            continue
+        trav = [o for o in p.ops if o.kind == 'call' and txt(o.val.func) == 'self._traverse_codepoints']
+        tells = [o for o in p.ops if o.kind == 'attr_store' and txt(o.val) == 'self._tell']
+        if not trav and not tells:
+            continue
+        n_sk += 1
+        ok = bool(trav) and bool(tells)
+        det = 'traversals %d, _tell stores %d' % (len(trav), len(tells))
+        if ok:
+            # a traversal that starts at code point 0 needs the byte buffer rewound first
+            for t_ in trav:
+                start = t_.val.args[0] if t_.val.args else None
+                if start is not None and txt(wsk.expand(start)) == '0':
+                    rew = [o for o in p.ops if o.seq < t_.seq and o.kind == 'call' and txt(o.val.func) == 'self.buffer.seek' and
+                           o.val.args and txt(o.val.args[0]) == '0' and len(o.val.args) == 1]
+                    if not rew:
+                        ok = False
+                        det = 'a traversal from code point 0 is not preceded by buffer.seek(0)'
+        ctx.ob('T2.seek', sk.fq, 'seek() moves the byte position and the code-point position together (traverse + store of _tell; '
+               'absolute traversals start from a rewound buffer)', ok, loc=sk.loc, detail=det, path=p.describe() if not ok else None)
+    if n_sk == 0:
+        ctx.unknown('T2.seek', sk.fq, 'no repositioning path found in seek()', sk.loc)
     # _tell unit
     sci = prog.cls('ioutils.SpooledStringIO')
     for nm, mem in sci.members.items():
